@@ -422,6 +422,12 @@ CALLS = [
     {"op": "touch", "key": "k", "expire": 9, "noreply": False},
     {"op": "touch", "key": "k"},
     {"op": "get", "key": "bad key"},
+    # (str keys that no encoding can express - a lone surrogate, as os.fsdecode() makes of an undecodable file name: whatever a
+    # Client does with them - an input error, or the encoder's own error when unicode keys are allowed - every stack does)
+    {"op": "get", "key": "caf\udce9"},
+    {"op": "set", "key": "\ud800", "value": "v"},
+    {"op": "get_many", "keys": ["k", "caf\udce9"]},
+    {"op": "delete", "key": "caf\udce9", "noreply": False},
     {"op": "set", "key": "bad key", "value": "v"},
     {"op": "incr", "key": "k", "delta": "x"},
     {"op": "set", "key": "k", "value": "v", "expire": "x"},
